@@ -196,3 +196,7 @@ for _p, _h in (("C03", "PointCharge"), ("C05", "Evals"), ("C06", "Density"), ("C
 # the coordinate-type tag (and its short spellings) selects the route of every public wrapper
 for _p in ("C01", "C03", "C09"):
     CHECKS[_p].harnesses.append("contracts.overlap:ShellSetters")
+
+# the contracts assumed on scipy.special by the symbolic runs, checked (bounded) on the reachable argument range
+for _p in ("C01", "C05", "C10"):
+    CHECKS[_p].harnesses.append("contracts.numeric:DependencyContracts")
